@@ -235,3 +235,64 @@ func TestChannelModelRandom(t *testing.T) {
 		}
 	}
 }
+
+// TestMutexUnderEveryStrategy: tasks incrementing a counter under a sync.Mutex through the
+// rewritten Lock/Unlock must finish under every strategy, including PCT, which always prefers
+// the highest-priority task (a spinning waiter would starve a parked holder).
+func TestMutexUnderEveryStrategy(t *testing.T) {
+	for seed := uint64(1); seed <= 120; seed++ {
+		var ch Chooser
+		switch seed % 4 {
+		case 0:
+			ch = NewRandomChooser(seed, 1)
+		case 1:
+			ch = NewPCT(seed, 3, 300)
+		case 2:
+			ch = &RoundRobin{Quantum: 1}
+		default:
+			ch = NewCoarse(seed)
+		}
+		var mu sync.Mutex
+		var rw sync.RWMutex
+		n := 0
+		res := Run(Config{Budget: 200_000, Chooser: ch}, func() {
+			var wg sync.WaitGroup
+			for k := 0; k < 4; k++ {
+				wg.Add(1)
+				Spawn("w", func() {
+					defer wg.Done()
+					for i := 0; i < 10; i++ {
+						Yield(1)
+						Lock(&mu, 2)
+						Yield(3)
+						v := n
+						Yield(4)
+						n = v + 1
+						Unlock(&mu, 5)
+						RLock(&rw, 6)
+						Yield(7)
+						RUnlock(&rw, 8)
+						Lock(&rw, 9)
+						Yield(10)
+						Unlock(&rw, 11)
+					}
+				})
+			}
+			Idle()
+			wg.Wait()
+		})
+		if res.Budget || res.Deadlock || n != 40 {
+			t.Fatalf("seed %d: n=%d budget=%v deadlock=%v blocked=%v", seed, n, res.Budget, res.Deadlock, res.Blocked)
+		}
+	}
+	// a holder that never unlocks: the waiters are reported, not spun on
+	var mu sync.Mutex
+	res := Run(Config{Budget: 100_000, Chooser: NewPCT(3, 2, 100)}, func() {
+		Spawn("holder", func() { Lock(&mu, 1); c := make(chan int); Recv(c, 2) })
+		Spawn("waiter", func() { Yield(3); Yield(3); Lock(&mu, 4) })
+		Idle()
+	})
+	if res.Budget || len(res.Leaks) == 0 {
+		t.Fatalf("stuck holder: want leaks, got budget=%v leaks=%v", res.Budget, res.Leaks)
+	}
+}
